@@ -1,6 +1,4 @@
 // ---- specs/common_cipher.rs : assumed contract of codec/aead.rs CipherMethod::new (shared by the Shadowsocks and VMess units) ----
-#[verifier::external_body]
-struct InvalidLength { _e: u8 }
 spec fn alg_of(kind: CipherKind) -> int {
     match kind {
         CipherKind::Aes128Gcm | CipherKind::Aead2022Blake3Aes128Gcm => 0,
